@@ -8,7 +8,8 @@ import glob, json, os, subprocess, sys, time
 sys.path.insert(0, os.path.dirname(os.path.abspath(__file__)))
 import sensitivity
 VERIF = sensitivity.VERIF
-PROPS = sys.argv[1:] or ["C19", "C18", "C17", "C16", "C08"]
+RENDER_ONLY = "--render" in sys.argv  # re-read results.json, take the seeded results from the meta.json files (items re-run alone)
+PROPS = [a for a in sys.argv[1:] if not a.startswith("--")] or ["C19", "C18", "C17", "C16", "C08"]
 budget = os.environ.get("SENS_BUDGET", "30")
 out = {"when": time.strftime("%Y-%m-%d %H:%M"), "repo_head": subprocess.run(["git", "-C", "/repo", "rev-parse", "--short", "HEAD"], capture_output=True, text=True).stdout.strip(),
        "verif_head": subprocess.run(["git", "-C", VERIF, "rev-parse", "--short", "HEAD"], capture_output=True, text=True).stdout.strip(),
@@ -27,10 +28,19 @@ def one_patch(args):
     return kind, prop, r
 
 
+def seeded_record(name):
+    meta = json.load(open(os.path.join(VERIF, "seeded", name, "meta.json")))
+    rec = {"property": meta["property"], "status_at_head": meta.get("status_at_head") or meta.get("note"), "result": meta["checks"].get(meta["property"], {}).get("quick")}
+    # a change written for one property may break another one: the check of that property reports it
+    other = {k: v.get("quick") for k, v in meta["checks"].items() if k != meta["property"] and (v.get("quick") or {}).get("detected")}
+    if other:
+        rec["detected_by_other_check"] = other
+    return name, rec
+
+
 def one_seeded(name):
     subprocess.run([os.path.join(VERIF, "tools", "seeded.py"), "run", name, "quick"], env=dict(os.environ, SENS_BUDGET=str(max(40, int(budget)))))
-    meta = json.load(open(os.path.join(VERIF, "seeded", name, "meta.json")))
-    return name, {"property": meta["property"], "status_at_head": meta.get("status_at_head"), "result": meta["checks"].get(meta["property"], {}).get("quick")}
+    return seeded_record(name)
 
 
 jobs = []
@@ -44,7 +54,19 @@ for d in sorted(glob.glob(os.path.join(VERIF, "seeded", "*"))):
     meta = json.load(open(os.path.join(d, "meta.json")))
     if meta["property"] in PROPS:
         names.append(os.path.basename(d))
-with ThreadPoolExecutor(PARALLEL) as ex:
+if RENDER_ONLY:
+    out = json.load(open(os.path.join(VERIF, "selftest", "results.json")))
+    budget = out["budget_s"]
+    for name in names:
+        _, rec = seeded_record(name)
+        before = (out["seeded"].get(name, {}).get("result") or {}).get("detected")
+        if before is False and (rec["result"] or {}).get("detected"):
+            rec["rerun_alone"] = True  # missed while three checks shared the machine, caught when run alone
+        elif out["seeded"].get(name, {}).get("rerun_alone"):
+            rec["rerun_alone"] = True
+        out["seeded"][name] = rec
+else:
+  with ThreadPoolExecutor(PARALLEL) as ex:
     for kind, prop, r in ex.map(one_patch, jobs):
         out[kind][prop].append(r)
     for name, rec in ex.map(one_seeded, names):
@@ -64,11 +86,26 @@ for prop in PROPS:
     L.append("")
 L.append("## Seeded defects (independent sub-agents)")
 L.append("")
+L.append("`detected` is the quick run of the property's own check; a change that breaks another property is reported by")
+L.append("that property's check (named in the note). Items marked *re-run alone* were missed while three checks shared the")
+L.append("machine (6 workers each) and caught when the same quick command ran alone (16 workers).")
+L.append("")
 L.append("| name | property | detected | signatures | note |")
 L.append("|---|---|---|---|---|")
+n_det = n_other = 0
 for name, r in out["seeded"].items():
     res = r["result"] or {}
     sigs = ", ".join(sorted({s.split("sig=")[1] for s in res.get("sigs", []) if "sig=" in s}))
-    L.append(f"| {name} | {r['property']} | {res.get('detected')} | {sigs} | {(r.get('status_at_head') or '')[:90]} |")
+    note = (r.get("status_at_head") or "")[:90]
+    if r.get("rerun_alone"):
+        note = "re-run alone. " + note
+    for k, v in (r.get("detected_by_other_check") or {}).items():
+        n_other += 0 if res.get("detected") else 1
+        note = f"reported by the {k} check: " + ", ".join(sorted({s.split("sig=")[1] for s in v.get("sigs", []) if "sig=" in s})) + ". " + note
+    n_det += 1 if res.get("detected") else 0
+    L.append(f"| {name} | {r['property']} | {res.get('detected')} | {sigs} | {note} |")
+L.append("")
+L.append(f"{len(out['seeded'])} seeded changes: {n_det} reported by their own property's check, {n_other} by another property's check, "
+         f"{len(out['seeded']) - n_det - n_other} not reported (reasons in the note column and in DESIGN.md 9.x).")
 open(os.path.join(VERIF, "selftest", "RESULTS.md"), "w").write("\n".join(L) + "\n")
 print("written selftest/RESULTS.md")
